@@ -507,8 +507,10 @@ impl World {
                         }
                     }
                     Some(_) => {
-                        ops.push(Op::n1(K::DropH, hi));
-                        ops.push(Op::n1(K::PDropH, hi));
+                        if self.lent[hi as usize].is_none() {
+                            ops.push(Op::n1(K::DropH, hi));
+                            ops.push(Op::n1(K::PDropH, hi));
+                        }
                         for r in 0..sc.r {
                             ops.push(Op::n2(K::FetchRoot, hi, r));
                         }
@@ -811,7 +813,7 @@ impl World {
                     for k in 0..3u32 {
                         let g = gc_arena::Gc::new(
                             mc,
-                            Node { id: 600 + k, pat: 0, _tok: Tok(600 + k), s: [gc_arena::Lock::new(None), gc_arena::Lock::new(None)], w: gc_arena::Lock::new(None), dw: Box::new(WSlot(gc_arena::Lock::new(None))), leaf: gc_arena::Lock::new(None), wl: gc_arena::Lock::new(None), cell: gc_arena::Lock::new(None) },
+                            Node { id: 600 + k, pat: 0, _tok: Tok(600 + k), s: [gc_arena::Lock::new(None), gc_arena::Lock::new(None)], w: gc_arena::Lock::new(None), dw: Box::new(WSlot(gc_arena::Lock::new(None))), leaf: gc_arena::Lock::new(None), wl: gc_arena::Lock::new(None), cell: gc_arena::Lock::new(None), held: Default::default() },
                         );
                         fresh.push(s.stash::<gc_arena::Rootable![Node<'_>]>(mc, g));
                     }
@@ -944,7 +946,7 @@ impl World {
         let r = guarded("failing map_root / try_map_root", || match variant {
             0 => {
                 let _a = arena.map_root::<RootT>(|mc, mut root| {
-                    let g = gc_arena::Gc::new(mc, Node { id: base + id as u32, pat: pattern(base + id as u32), _tok: Tok(base + id as u32), s: [gc_arena::Lock::new(None), gc_arena::Lock::new(None)], w: gc_arena::Lock::new(None), dw: Box::new(WSlot(gc_arena::Lock::new(None))), leaf: gc_arena::Lock::new(None), wl: gc_arena::Lock::new(None), cell: gc_arena::Lock::new(None) });
+                    let g = gc_arena::Gc::new(mc, Node { id: base + id as u32, pat: pattern(base + id as u32), _tok: Tok(base + id as u32), s: [gc_arena::Lock::new(None), gc_arena::Lock::new(None)], w: gc_arena::Lock::new(None), dw: Box::new(WSlot(gc_arena::Lock::new(None))), leaf: gc_arena::Lock::new(None), wl: gc_arena::Lock::new(None), cell: gc_arena::Lock::new(None), held: Default::default() });
                     cell.set(gc_arena::Gc::as_ptr(g) as usize);
                     talloc::register_gc(cell.get(), base + id as u32);
                     root.r[0] = Some(g);
@@ -956,7 +958,7 @@ impl World {
             }
             _ => {
                 let r = arena.try_map_root::<RootT, ()>(|mc, mut root| {
-                    let g = gc_arena::Gc::new(mc, Node { id: base + id as u32, pat: pattern(base + id as u32), _tok: Tok(base + id as u32), s: [gc_arena::Lock::new(None), gc_arena::Lock::new(None)], w: gc_arena::Lock::new(None), dw: Box::new(WSlot(gc_arena::Lock::new(None))), leaf: gc_arena::Lock::new(None), wl: gc_arena::Lock::new(None), cell: gc_arena::Lock::new(None) });
+                    let g = gc_arena::Gc::new(mc, Node { id: base + id as u32, pat: pattern(base + id as u32), _tok: Tok(base + id as u32), s: [gc_arena::Lock::new(None), gc_arena::Lock::new(None)], w: gc_arena::Lock::new(None), dw: Box::new(WSlot(gc_arena::Lock::new(None))), leaf: gc_arena::Lock::new(None), wl: gc_arena::Lock::new(None), cell: gc_arena::Lock::new(None), held: Default::default() });
                     cell.set(gc_arena::Gc::as_ptr(g) as usize);
                     talloc::register_gc(cell.get(), base + id as u32);
                     root.r[0] = Some(g);
